@@ -30,11 +30,12 @@ const (
 	siteRdAdvance
 	siteRdOther
 	siteOpBoundary
+	sitePO // a no-op parser.ParseOption of the harness: inside the prologue of Parse
 	siteHookBase // + 4*once + {enter,begin,end,done}
 )
 
 var siteNames = []string{"start", "sink", "bufw", "ctx.get", "ctx.set", "ctx.compute", "ctx.ref", "ctx.ids",
-	"ctx.block", "ctx.delim", "ctx.opened", "ctx.other", "ids.gen", "ids.put", "rd.peek", "rd.advance", "rd.other", "op",
+	"ctx.block", "ctx.delim", "ctx.opened", "ctx.other", "ids.gen", "ids.put", "rd.peek", "rd.advance", "rd.other", "op", "parseopt",
 	"parser.init.enter", "parser.init.begin", "parser.init.end", "parser.init.done",
 	"renderer.init.enter", "renderer.init.begin", "renderer.init.end", "renderer.init.done",
 	"entities.init.enter", "entities.init.begin", "entities.init.end", "entities.init.done"}
